@@ -41,8 +41,10 @@ package atree
 //@      (st != nil && !is(st, *ArrayDataSlab) && !is(st, *ArrayMetaDataSlab) && !is(st, *MapDataSlab) && !is(st, *MapMetaDataSlab) && !is(st, SlabIDStorable) && !is(st, WrapperStorable) ==>
 //@           cvid(st) == emptyValueID)
 
+//@ axiom (forall id SlabID :: {cvid(iface(SlabIDStorable(id)))} cvid(iface(SlabIDStorable(id))) == vidOf(id)) because "definition of the ghost function cvid at references"
+
 //@ iface WrapperStorable.WrapAtreeStorable(s) (r)
-//@   ensures r != nil
+//@   ensures r != nil && is(r, WrapperStorable)
 //@   modifies alloc
 
 //@ func uninlineStorableIfNeeded(storage, storable) (r, vid, uninlined, err)  serves C10 C11 C18
@@ -53,8 +55,24 @@ package atree
 //@   assume is(storable, *MapDataSlab) ==> as(storable, *MapDataSlab).header.size >= 17 && as(storable, *MapDataSlab).header.size <= 4294967000 &&
 //@        as(storable, *MapDataSlab).elements != nil && elsSize(as(storable, *MapDataSlab).elements) <= 4294967000 because "size of an inlined map slab (C06)"
 //@   ensures[C11] err == nil ==> vid == cvid(storable)
+//@   ensures[C11] err == nil && !(uninlined && is(storable, WrapperStorable)) ==> vid == cvid(r)
+//@   ensures[C11] err == nil && uninlined && is(storable, WrapperStorable) ==> r != nil && is(r, WrapperStorable)
 //@   ensures[C10] err == nil && (is(storable, *ArrayDataSlab) || is(storable, *MapDataSlab)) ==> uninlined && r == iface(SlabIDStorable(sid(as(storable, Slab)))) && sto[sid(as(storable, Slab))] == storable
 //@   ensures[C10] err == nil && storable != nil && is(storable, SlabIDStorable) ==> !uninlined && r == storable
 //@   ensures[C10] err == nil && !uninlined ==> r == storable
 //@   ensures[C18] err != nil ==> r == nil && !uninlined && vid == emptyValueID
 //@   modifies ArrayDataSlab.header, ArrayDataSlab.inlined, MapDataSlab.header, MapDataSlab.inlined, ghost.sto, ghost.stored, ghost.touched, alloc
+
+//@ # ---- overwriting / removing an element of an array: the handle registered for the detached child is forgotten, the handle of
+//@ # the value just stored is kept (also when the same container, possibly wrapped, is stored again at the same position)
+
+//@ func (a *Array) Set(index, value) (r, err)  serves C10 C11
+//@   requires value != nil && a.Storage != nil
+//@   ensures[C11] err == nil && contV(value) ==> has(a.mutableElementIndex, vvid(unwV(value))) && a.mutableElementIndex[vvid(unwV(value))] == index
+//@   ensures[C11] err == nil && r != nil && !is(r, WrapperStorable) && cvid(r) != emptyValueID && (!contV(value) || cvid(r) != vvid(unwV(value))) ==> !has(a.mutableElementIndex, cvid(r))
+//@   modifies heap, ghost.sto, ghost.stored, ghost.touched, ghost.notified, alloc
+
+//@ func (a *Array) Remove(index) (r, err)  serves C10 C11
+//@   requires a.Storage != nil
+//@   ensures[C11] err == nil && r != nil && !is(r, WrapperStorable) && cvid(r) != emptyValueID ==> !has(a.mutableElementIndex, cvid(r))
+//@   modifies heap, ghost.sto, ghost.stored, ghost.touched, ghost.notified, alloc
